@@ -551,6 +551,81 @@ theorem dedup_spec {κ : Type} [DecidableEq κ] (key : Row → κ) (rows : List 
   ⟨(dedupAux_keys key [] rows).1, dedupAux_sublist key [] rows,
     fun x hx => dedupAux_complete key [] rows x hx (fun h => by cases h)⟩
 
+/-! ## field references by name: which column, or AMBIGUOUS / NOT FOUND
+
+  Model of `Header.FieldIndex`.  The flag that lets the merged column of a USING / NATURAL join win is local to
+  the join's own query: `View.Fix` clears it, so once the join result is a derived table or a CTE an unqualified
+  name that also exists in another joined table is ambiguous again. -/
+
+/-- a resolved reference points at a field that matches it -/
+theorem field_index_sound (h : List HField) (view : Option String) (name : String) (k : Nat)
+    (hk : fieldIndex h view name = .ok k) : ∃ f, h[k]? = some f ∧ fieldMatches view name f = true := by
+  rcases fieldIndexGo_sound view name h 0 none k hk with h1 | ⟨j, f, hf, hkj, hm⟩
+  · cases h1
+  · exact ⟨f, by rw [hkj, Nat.zero_add]; exact hf, hm⟩
+
+/-- two candidates, no join column in the header (or a qualified reference): the reference is rejected -/
+theorem field_index_ambiguous (h : List HField) (view : Option String) (name : String)
+    (hnj : view.isSome = true ∨ ∀ f, f ∈ h → f.isJoin = false)
+    (h2 : 2 ≤ h.countP (fieldMatches view name)) : fieldIndex h view name = .error .ambiguous :=
+  fieldIndexGo_ambiguous view name h 0 none hnj (by simpa using h2)
+
+/-- inside the join's own query the merged column wins (nothing before it carries the name) -/
+theorem join_column_wins (name : String) (pre : List HField) (f : HField) (post : List HField)
+    (hpre : ∀ g, g ∈ pre → fieldMatches none name g = false) (hf : fieldMatches none name f = true)
+    (hj : f.isJoin = true) : fieldIndex (pre ++ f :: post) none name = .ok pre.length := by
+  unfold fieldIndex
+  rw [fieldIndexGo_join_wins name pre f post 0 none hpre hf hj, Nat.zero_add]
+
+/-- after `Fix` no field is a join column -/
+theorem fix_clears_join_columns (labels : List String) (h : List HField) :
+    ∀ f, f ∈ aliasHeader alias (fixHeader labels h) → f.isJoin = false := by
+  intro f hf
+  unfold aliasHeader at hf
+  obtain ⟨g, hg, rfl⟩ := List.mem_map.mp hf
+  exact fixHeader_isJoin labels h g hg
+
+/-- hence: a derived table (built from whatever join) joined with a table that has a column of the same name
+    makes the unqualified name ambiguous -/
+theorem derived_table_column_ambiguous (alias : String) (labels : List String) (h other : List HField) (name : String)
+    (hother : ∀ f, f ∈ other → f.isJoin = false)
+    (h1 : 1 ≤ (aliasHeader alias (fixHeader labels h)).countP (fieldMatches none name))
+    (h2 : 1 ≤ other.countP (fieldMatches none name)) :
+    fieldIndex (other ++ aliasHeader alias (fixHeader labels h)) none name = .error .ambiguous ∧
+    fieldIndex (aliasHeader alias (fixHeader labels h) ++ other) none name = .error .ambiguous := by
+  have hd := fix_clears_join_columns (alias := alias) labels h
+  constructor
+  · apply field_index_ambiguous
+    · exact Or.inr (fun f hf => by
+        rcases List.mem_append.mp hf with h | h
+        · exact hother f h
+        · exact hd f h)
+    · rw [List.countP_append]; omega
+  · apply field_index_ambiguous
+    · exact Or.inr (fun f hf => by
+        rcases List.mem_append.mp hf with h | h
+        · exact hd f h
+        · exact hother f h)
+    · rw [List.countP_append]; omega
+
+/-! ## which object a FROM name denotes: CTE over temporary table over file -/
+
+theorem cte_shadows_temp_and_file (ctes temps : List String) (n : String) (h : nameIn ctes n = true) :
+    tableKind none ctes temps n = .cte := by
+  simp [tableKind, h]
+
+theorem temp_shadows_file (ctes temps : List String) (n : String) (hc : nameIn ctes n = false)
+    (ht : nameIn temps n = true) : tableKind none ctes temps n = .temp := by
+  simp [tableKind, hc, ht]
+
+theorem recursive_working_view_first (ctes temps : List String) (r n : String) (h : eqFold r n = true) :
+    tableKind (some r) ctes temps n = .recursive := by
+  simp [tableKind, h]
+
+/-- a condition without open references evaluates, with the short-circuits of eval.go, to the total value -/
+theorem lazy_eval_agrees (lw : Nat) (r : Row) (c : CondE) (h : condPure c = true) :
+    evalCondE lw r c = .ok (evalCond lw r c) := evalCondE_pure lw r c h
+
 /-! ## non-vacuity -/
 
 /-- an integer cell (float view left out so that `decide` stays small) -/
@@ -580,6 +655,11 @@ example : recursiveImpl (fun g => g) 5 [[cI 1]] = none := by decide
 example : recursiveUnionImpl (fun r => r.map (fun p => p.int?))
       (fun g => (g.filter (fun r => r != [cI 3])).map (fun r => if r == [cI 1] then [cI 2] else [cI 3])) 9 [[cI 1], [cI 1]]
     = some [[cI 1], [cI 2], [cI 3]] := by decide
+example (n x : String) : fieldIndex [⟨"c", n, false⟩, ⟨"s", n, false⟩, ⟨"s", x, false⟩] none n = .error .ambiguous := by
+  simp [fieldIndex, fieldIndexGo, fieldMatches, eqFold]
+example (n : String) : fieldIndex [⟨"", n, true⟩, ⟨"c", n, false⟩] none n = .ok 0 := by
+  simp [fieldIndex, fieldIndexGo, fieldMatches, eqFold]
+example (t : String) : tableKind none [t] [t] t = .cte := by simp [tableKind, nameIn, eqFold]
 example : outerImpl .left 1 2 [[[cI 1]], [[cI 2]]] [] (fun _ => .T) = [[cI 1, nullP, nullP], [cI 2, nullP, nullP]] := by decide
 
 end Csvq.C03
